@@ -66,6 +66,7 @@ func init() {
 			zs := zooms(tier)
 			kinds := []int{6, 8, 26}
 			return []engine.Phase{
+				respellNeighbourPhase("C08", tier),
 				{Name: "fixed-stencils", ShardDepth: 2, Bounds: engine.Bounds{InputDev: -1},
 					Rule: "full product h x (x,y) in HIdx(h)^2 x v in {0,h,35} x f in VIdxSmall(v) (thorough: v in the 15 edge zooms x f in VIdx(v)) x stencil in {6,8,26}; set and multiset size vs model, exact count and self-exclusion where 3 <= 2^h, symmetry b in N(a) => a in N(b); non-trivial = distinct cases where some offset wraps",
 					Body: func(c *engine.Ctx) {
